@@ -275,6 +275,8 @@ class C11(RS.StepProp):
             {'kind': 0, 'orig': '{[#A]1[#B][#A][#B]1}' + cg, 'modf': '{[#A].21[#B][#A]2[#B]1}' + cg, 'rho': [[0, 0], [1, 1], [2, 2], [3, 3]], 'aa': False, 'legacy': True},
             {'kind': 0, 'orig': '{[#A]%11[#B][#A][#B]%11}' + cg, 'modf': '{[#A].%12%11[#B][#A]%12[#B]%11}' + cg, 'rho': [[0, 0], [1, 1], [2, 2], [3, 3]], 'aa': False, 'legacy': True},
             {'kind': 0, 'orig': '{[#A]1[#B][#A]1}' + fr, 'modf': '{[#A].21[#B][#A]1.[#V]2}' + fr, 'rho': [[0, 0], [1, 1], [2, 2]], 'aa': True, 'legacy': True},
+            {'kind': 0, 'orig': '{[#A][#B]}' + fr, 'modf': '{[#A][#B].[#V]}' + fr, 'rho': [[0, 0], [1, 1]], 'aa': True, 'legacy': True, 'ctor': 'graph'},
+            {'kind': 0, 'orig': '{[#A][#B][#A]}' + cg, 'modf': '{[#A].1[#B][#A]1}' + cg, 'rho': [[0, 0], [1, 1], [2, 2]], 'aa': False, 'legacy': True, 'ctor': 'graph'},
             {'kind': 1, 'orig': '{[#A][#B]}' + fr, 'modf': '{[#V][#A][#B]}' + fr, 'rho': [[0, 1], [1, 2]], 'aa': True, 'legacy': True},
             {'kind': 1, 'orig': '{[#A][#B]}' + cg, 'modf': '{[#A][#B]=[#V]}' + cg, 'rho': [[0, 0], [1, 1]], 'aa': False, 'legacy': True},
             {'kind': 1, 'orig': '{[#A][#B]}' + cg, 'modf': '{[#A].[#V][#B]}' + cg, 'rho': [[0, 0], [1, 2]], 'aa': False, 'legacy': True},
@@ -289,6 +291,8 @@ class C11(RS.StepProp):
         while len(out) < n:
             c = rand_pair(rng, reject=rng.random() < 0.12)
             if c is not None:
+                if rng.random() < 0.25:
+                    c['ctor'] = 'graph'
                 for lv in range(c.get('levels', 1)):
                     out.append(dict(c, level=lv))
         return out
@@ -299,12 +303,20 @@ class C11(RS.StepProp):
         level = case.get('level', 0)
 
         def one(text, want):
-            key = (text, case['aa'], case['legacy'])
+            key = (text, case['aa'], case['legacy'], case.get('ctor'))
             if key not in self._reccache:
                 if len(self._reccache) > 64:
                     self._reccache.clear()
                 try:
-                    r = MoleculeResolver.from_string(text, last_all_atom=case['aa'], legacy=case['legacy'])
+                    if case.get('ctor') == 'graph':
+                        # the same input through the second constructor: base graph as networkx graph
+                        import re
+                        from cgsmiles.read_cgsmiles import read_cgsmiles
+                        elements = re.findall(r"\{[^\}]+\}", text)
+                        r = MoleculeResolver.from_graph(''.join(elements[1:]), read_cgsmiles(elements[0]),
+                                                        last_all_atom=case['aa'], legacy=case['legacy'])
+                    else:
+                        r = MoleculeResolver.from_string(text, last_all_atom=case['aa'], legacy=case['legacy'])
                 except Exception as exc:          # noqa: BLE001
                     self._reccache[key] = [{'skip': 'constructor: ' + type(exc).__name__}]
                 else:
@@ -357,6 +369,7 @@ class C11(RS.StepProp):
         tag = 'all-atom' if case['aa'] else 'coarse'
         if impl['orig'].get('exc'):
             return tag + ':original-not-resolvable'
+        tag += ':from_graph' if case.get('ctor') == 'graph' else ''
         return '%s:%s%s%s' % (tag, 'level%d:' % case['level'] if case.get('level') else '', '+'.join(sorted(set(case.get('ops', ['corpus'])))),
                             ':virtual-before-real' if impl['class'] else '')
 
